@@ -443,8 +443,9 @@ Lemma k_compute_next_step k ps Bs Ss Ps k' ps' :
   k_compute_next oracle L af e k ps = Done k' ps' ->
   exists Bs' Ss' Ps', linv k' ps' Bs' /\ cnt k' Bs' Ss' Ps' /\ next_ok (k_state k) (k_state k') /\
                       pot Ss' Ps' (k_state k') = pot Ss Ps (k_state k) + 1 /\
-                      exists lg, rlog ps' = lg ++ rlog ps /\
-                                 Ss' = sats lg ++ (match k_state k with MInit => [gr0] | _ => [] end) ++ Ss.
+                      (exists lg, rlog ps' = lg ++ rlog ps /\
+                                  Ss' = sats lg ++ (match k_state k with MInit => [gr0] | _ => [] end) ++ Ss) /\
+                      (k_state k' = MMaximal -> k_cur k' = k_cur k) /\ (k_state k' <> MMaximal -> Ps' = Ps).
 Proof.
   intros (Hs & Hb & Hst) (HS & HsS & HP & HsP & Hc) Hmx E. unfold k_compute_next in E. destruct (k_state k) eqn:Est.
   - (* Maximal, contains id: block it again, search elsewhere *)
@@ -459,7 +460,8 @@ Proof.
     + intros P HP'. destruct (HP P HP') as [H1 H1']. split; [exact H1|apply in_or_app; left; exact H1'].
     + intros S HS'. apply in_or_app. left. apply Hc, HS'.
     + exists ((Bs0 ++ [k_cur k]) ++ [k_cur k]), Ss', Ps. split; [exact Hl|]. split; [exact Hc'|]. split; [exact Hn|].
-      split; [rewrite Hp; unfold pot; lia|]. exists (lg ++ [ev0]). rewrite Hlg, Hlg0, <- app_assoc. split; [reflexivity|].
+      split; [rewrite Hp; unfold pot; lia|]. split; [|split; [destruct Hn as [Hn|Hn]; rewrite Hn; discriminate|reflexivity]].
+      exists (lg ++ [ev0]). rewrite Hlg, Hlg0, <- app_assoc. split; [reflexivity|].
       rewrite sats_app, Hsat0, app_nil_r. exact HSs'.
   - (* Intermediate: block the current set, look for a strictly larger one *)
     destruct Hst as (Hco & Hnd & Hnb & Hd).
@@ -482,7 +484,7 @@ Proof.
     { intros P HP'. destruct (HP P HP') as [H1 H1']. split; [exact H1|apply in_or_app; left; exact H1']. }
     destruct r as [X|].
     + destruct Hr as (K1 & K2 & K3 & K4). exists (Bs ++ [k_cur k]), (X :: Ss), Ps.
-      split; [|split; [|split; [left; reflexivity|split]]].
+      split; [|split; [|split; [left; reflexivity|split; [|split; [|split; [discriminate|reflexivity]]]]]].
       4:{ exists lg. rewrite Hsat'. split; [exact Hlg'|reflexivity]. }
       * unfold linv. cbn [k_with k_sel k_state k_cur]. split; [exact Hs|]. split; [exact Hb2|].
         split; [exact K1|]. split; [exact K2|]. split; [exact K4|].
@@ -497,7 +499,7 @@ Proof.
       assert (Hpr : pr F (k_cur k)).
       { apply max_co_pr; [exact Hco|]. intros T HT Hi. destruct (Hr T HT Hi) as (B & HB & HTB). apply in_app_or in HB.
         destruct HB as [HB|[<-|[]]]; [|exact HTB]. exfalso. apply (Hnb B HB). exact (incl_tran Hi HTB). }
-      split; [|split; [|split; [right; reflexivity|split]]].
+      split; [|split; [|split; [right; reflexivity|split; [|split; [|split; [reflexivity|intros Hx; exfalso; apply Hx; reflexivity]]]]]].
       4:{ exists lg. rewrite Hsat'. split; [exact Hlg'|reflexivity]. }
       * unfold linv. cbn [k_with k_sel k_state k_cur]. split; [exact Hs|]. split; [exact Hb2|].
         exists Bs. auto.
@@ -507,10 +509,10 @@ Proof.
       * unfold pot. cbn [k_with k_state length]. lia.
   - destruct (new_search_step k ps Bs Ss Ps k' ps' Hs Hb Hst HS HsS HP HsP Hc E) as (Ss' & Hl & Hc' & Hn & Hp & lg & Hlg & HSs').
     exists Bs, Ss', Ps. split; [exact Hl|]. split; [exact Hc'|]. split; [exact Hn|].
-    split; [rewrite Hp; unfold pot; lia|]. exists lg. auto.
+    split; [rewrite Hp; unfold pot; lia|]. split; [exists lg; auto|]. split; [destruct Hn as [Hn|Hn]; rewrite Hn; discriminate|reflexivity].
   - discriminate E.
   - apply ret_Done in E. destruct E as [<- <-]. subst Bs. destruct Hc as [-> ->]. exists [], [gr0], [].
-    split; [|split; [|split; [reflexivity|split; [reflexivity|exists []; split; reflexivity]]]].
+    split; [|split; [|split; [reflexivity|split; [reflexivity|split; [exists []; split; reflexivity|split; [discriminate|reflexivity]]]]]].
     + unfold linv. cbn [k_with k_sel k_state k_cur]. split; [exact Hs|]. split; [exact Hb|].
       split; [exact (proj1 Hgr)|]. split; [exact (proj2 Hgr)|]. split; [intros B []|apply dead_nil].
     + unfold cnt. cbn [k_with k_state k_cur]. split; [intros S [<-|[]]; exact (proj1 Hgr)|].
@@ -571,7 +573,7 @@ Proof.
     pose proof (pot_lt k Bs Ss Ps Hc Hnn) as Hplt.
     destruct (k_compute_next oracle L af e k ps) as [k1 ps1| | |] eqn:E1; cbv beta iota in Hcl, Hnof;
       try (unfold CB; lia); try (destruct Hnof).
-    destruct (k_compute_next_step k ps Bs Ss Ps k1 ps1 Hl Hc Hmx E1) as (Bs1 & Ss1 & Ps1 & Hl1 & Hc1 & Hn & Hp & lg1 & Hlg1 & HSs1).
+    destruct (k_compute_next_step k ps Bs Ss Ps k1 ps1 Hl Hc Hmx E1) as (Bs1 & Ss1 & Ps1 & Hl1 & Hc1 & Hn & Hp & (lg1 & Hlg1 & HSs1) & Hcur1 & HPs1).
     pose proof Hl1 as (Hs1 & Hb1 & Hst1).
     assert (Hcst1 : cst (k_state k1) = 1).
     { destruct (k_state k); cbn [next_ok] in Hn; try contradiction; try (destruct Hn as [Hn|Hn]); rewrite Hn; reflexivity. }
@@ -660,6 +662,82 @@ Proof.
       * apply HCB. unfold CB. pose proof (pot_le k1 Bs1 Ss1 Ps1 Hc1). rewrite Est1 in *. cbn [cst]. lia.
       * apply HLOG. exists []. split; [reflexivity|]. cbn [app sats flat_map]. rewrite Est1. cbn [ini app].
         destruct Hc1 as (B1 & B2 & _). auto.
+    + discriminate Hcst1.
+Qed.
+
+(* ---- the TIGHT account.  The loop never continues from a maximal set: a current set that contains the
+   argument is discarded at once, so [k_compute_next] is only asked to grow sets WITHOUT the argument, a
+   set proved maximal is then a counter-example and the loop returns.  Hence at most one maximal set is
+   ever reached, and the calls are bounded by the number of COMPLETE extensions alone (each set that
+   has been current costs one call, except the grounded start; the final Unsat costs one). *)
+Definition co_bound : nat := length (all_exts CO F) + 1.
+Definition CBt (k : dcomp) (ps : Prog.st) (Ss : list (list nat)) (ps' : Prog.st) : Prop :=
+  calls ps' + length Ss + 1 <= calls ps + cst (k_state k) + co_bound.
+
+Lemma pr_loop_tight fuel : forall k fm in_all missing ps Bs Ss,
+  linv k ps Bs -> cnt k Bs Ss [] -> k_state k <> MNone -> k_state k <> MMaximal ->
+  (k_state k = MIntermediate -> ~ In id (k_cur k)) -> id < length missing ->
+  match pr_loop oracle L fuel af e id k fm in_all missing ps with
+  | Done _ ps' | Abort ps' | Panic ps' => CBt k ps Ss ps'
+  | OutOfFuel ps' => fuel + length Ss < co_bound /\ CBt k ps Ss ps'
+  end.
+Proof.
+  induction fuel as [|f IH]; intros k fm in_all missing ps Bs Ss Hl Hc Hnn Hnm Hni Hlen; cbn [pr_loop].
+  - assert (HSs : length Ss <= length (all_exts CO F)) by (destruct Hc as (A1 & A2 & _); apply sepl_co_le; assumption).
+    unfold out_of_fuel, CBt, co_bound. cbn [Nat.add]. lia.
+  - assert (HSs : length Ss <= length (all_exts CO F)) by (destruct Hc as (A1 & A2 & _); apply sepl_co_le; assumption).
+    unfold bind at 1. pose proof (nof_k_compute_next k ps) as Hnof. pose proof (cle_k_compute_next k ps) as Hcl.
+    destruct (k_compute_next oracle L af e k ps) as [k1 ps1| | |] eqn:E1; cbv beta iota in Hcl, Hnof;
+      try (unfold CBt, co_bound; lia); try (destruct Hnof).
+    destruct (k_compute_next_step k ps Bs Ss [] k1 ps1 Hl Hc ltac:(intros Hx; congruence) E1)
+      as (Bs1 & Ss1 & Ps1 & Hl1 & Hc1 & Hn & Hp & _ & Hcur1 & HPs1).
+    pose proof Hl1 as (Hs1 & Hb1 & Hst1).
+    assert (Hcst1 : cst (k_state k1) = 1).
+    { destruct (k_state k); cbn [next_ok] in Hn; try contradiction; try (destruct Hn as [Hn|Hn]); rewrite Hn; reflexivity. }
+    assert (Hrec : forall k2 fm2 ia2 ms2 ps2 Bs2,
+              linv k2 ps2 Bs2 -> cnt k2 Bs2 Ss1 [] -> k_state k2 <> MNone -> k_state k2 <> MMaximal ->
+              (k_state k2 = MIntermediate -> ~ In id (k_cur k2)) -> id < length ms2 -> k_state k2 <> MInit ->
+              length Ss1 = length Ss + 1 -> calls ps2 <= calls ps1 ->
+              match pr_loop oracle L f af e id k2 fm2 ia2 ms2 ps2 with
+              | Done _ ps' | Abort ps' | Panic ps' => CBt k ps Ss ps'
+              | OutOfFuel ps' => S f + length Ss < co_bound /\ CBt k ps Ss ps'
+              end).
+    { intros k2 fm2 ia2 ms2 ps2 Bs2 A1 A2 A3 A4 A5 A6 A7 A8 A9.
+      pose proof (IH k2 fm2 ia2 ms2 ps2 Bs2 Ss1 A1 A2 A3 A4 A5 A6) as G.
+      assert (Hc2 : cst (k_state k2) = 1) by (destruct (k_state k2); try reflexivity; congruence).
+      unfold CBt in *. rewrite Hc2 in G.
+      destruct (pr_loop oracle L f af e id k2 fm2 ia2 ms2 ps2); try lia. }
+    destruct (k_state k1) eqn:Est1.
+    + (* Maximal: it grew from a set without the argument, the loop returns *)
+      assert (Hki : k_state k = MIntermediate).
+      { destruct (k_state k); cbn [next_ok] in Hn; try contradiction; try reflexivity;
+          try (destruct Hn as [Hn|Hn]; discriminate Hn); discriminate Hn. }
+      rewrite (nth_bools_of _ _ _ Hlen), (Hcur1 eq_refl).
+      rewrite (proj2 (memb_false id (k_cur k)) (Hni Hki)). cbn [negb]. unfold ret, CBt, co_bound. lia.
+    + (* Intermediate *)
+      assert (HP1 : Ps1 = []) by (apply HPs1; discriminate). subst Ps1.
+      assert (HS1 : length Ss1 = length Ss + 1).
+      { unfold pot in Hp. destruct (k_state k); try congruence; lia. }
+      destruct Hst1 as (Hco & Hnd & Hnb & Hd).
+      destruct (memb id (k_cur k1)) eqn:Em.
+      * unfold bind at 1. pose proof (nof_k_discard k1 ps1) as Hnof'. pose proof (cle_k_discard k1 ps1) as Hcl'.
+        destruct (k_discard L af e k1 ps1) as [u ps2| | |] eqn:E2; cbv beta iota in Hcl', Hnof';
+          try (unfold CBt, co_bound; lia); try (destruct Hnof').
+        pose proof (k_discard_step k1 ps1 Bs1 u ps2 Hs1 Hb1 E2) as Hb2.
+        apply (Hrec (k_with k1 (k_cur k1) MJustDiscarded) _ _ _ ps2 (Bs1 ++ [k_cur k1])); cbn [k_with k_state]; try discriminate; try lia.
+        -- unfold linv. cbn [k_with k_sel k_state k_cur]. split; [exact Hs1|]. split; [exact Hb2|].
+           apply dead_app; [exact Hd|]. apply dead_has_id; [apply co_adm, Hco|apply memb_spec, Em].
+        -- destruct Hc1 as (A1 & A2 & A3 & A4 & A5). rewrite Est1 in A5. unfold cnt. cbn [k_with k_state].
+           split; [exact A1|]. split; [exact A2|]. split; [intros P []|]. split; [exact I|].
+           intros S HS'. apply in_or_app. destruct (A5 S HS') as [H'| ->]; [left; exact H'|right; left; reflexivity].
+        -- rewrite length_add_defeated. exact Hlen.
+      * apply (Hrec k1 _ _ _ ps1 Bs1); auto; try (rewrite Est1; discriminate); try lia.
+        -- intros _. apply memb_false, Em.
+        -- rewrite length_add_defeated. exact Hlen.
+    + assert (HP1 : Ps1 = []) by (apply HPs1; discriminate). subst Ps1.
+      assert (HS1 : length Ss1 = length Ss + 1) by (unfold pot in Hp; destruct (k_state k); try congruence; lia).
+      apply (Hrec k1 _ _ _ ps1 Bs1); auto; try (rewrite Est1; discriminate); lia.
+    + unfold ret, CBt, co_bound. lia.
     + discriminate Hcst1.
 Qed.
 
@@ -800,6 +878,43 @@ Proof.
   - lia.
   - lia.
   - destruct G' as [G1 G2]. split; lia.
+Qed.
+
+(* the tight account of a search: at most one call per complete extension *)
+Lemma pr_search_tight fuel (af : fw) e ps1 ps2 l id os :
+  ready L af e ps1 -> e_sem e = DPR ->
+  (forall x, live_var e x -> x <= session_n_vars (sess ps1)) ->
+  bounded (cls ps1) (session_n_vars (sess ps1)) ->
+  af = run_ops fresh os -> get_argument af l = Some id -> sess ps2 = sess ps1 ->
+  match pr_loop oracle L fuel af e id
+          {| k_cur := []; k_state := MInit; k_sel := zlit (1 + session_n_vars (sess ps1)) |} true None
+          (repeat false (1 + match max_argument_id L af with Some m => m | None => 0 end)) ps2 with
+  | Done _ ps3 | Abort ps3 | Panic ps3 => calls ps3 <= calls ps2 + length (all_exts CO (af_of af))
+  | OutOfFuel ps3 => fuel <= length (all_exts CO (af_of af)) /\ calls ps3 <= calls ps2 + length (all_exts CO (af_of af))
+  end.
+Proof.
+  intros [Ht Hinv Hz Hcv (dv & atk & H1 & H2 & H3 & H4 & H5)] Hsem Hlv Hbd Haf Hid Hs2.
+  assert (Hcls : cls ps2 = cls ps1) by (unfold cls; now rewrite Hs2).
+  assert (Hwf : wf (af_of af)) by (rewrite Haf; exact (af_of_wf L leqb leqb_spec _ (fresh_reachable_g os))).
+  assert (Hgr : co (af_of af) (grounded (view_of_fw af)) /\ NoDup (grounded (view_of_fw af))).
+  { rewrite Haf. destruct (grounded_store L leqb leqb_spec _ (fresh_reachable_g os)) as [[Hco _] Hnd]. split; assumption. }
+  assert (Hlive : has af id = true) by (eapply (get_argument_live L leqb leqb_spec); eassumption).
+  pose proof (pr_loop_tight af e (cls ps1) (1 + session_n_vars (sess ps1)) id dv atk Ht Hinv Hz Hcv H2 H3 H4 H5 Hsem) as G.
+  specialize (G ltac:(intros x Hx; specialize (Hlv x Hx); lia)).
+  specialize (G ltac:(replace (1 + session_n_vars (sess ps1) - 1) with (session_n_vars (sess ps1)) by lia; exact Hbd)).
+  specialize (G Hwf Hgr ltac:(lia) fuel
+                {| k_cur := []; k_state := MInit; k_sel := zlit (1 + session_n_vars (sess ps1)) |} true None
+                (repeat false (1 + match max_argument_id L af with Some m => m | None => 0 end)) ps2 [] []).
+  assert (G' := G (conj eq_refl (conj (ex_intro _ [] (conj (eq_trans (eq_sym (app_nil_r _)) (f_equal (fun x => x ++ []) Hcls) ) (Forall2_nil _))) eq_refl))).
+  clear G.
+  assert (Hcnt : cnt af {| k_cur := []; k_state := MInit; k_sel := zlit (1 + session_n_vars (sess ps1)) |} [] [] []).
+  { unfold cnt. cbn [k_state sepl]. split; [intros S []|]. split; [exact I|]. split; [intros P []|]. split; [exact I|]. split; reflexivity. }
+  specialize (G' Hcnt ltac:(discriminate) ltac:(discriminate) ltac:(discriminate)).
+  assert (Hlen : id < length (repeat false (1 + match max_argument_id L af with Some m => m | None => 0 end))).
+  { rewrite repeat_length. pose proof (has_lt L af id Hlive) as Hl.
+    unfold max_argument_id, ls_max_id. destruct (slots (ls af)); cbn [length] in *; lia. }
+  specialize (G' Hlen). unfold CBt, co_bound, cst in G'. cbn [k_state length Nat.add] in G'.
+  destruct (pr_loop oracle L fuel af e id _ true None _ ps2); lia.
 Qed.
 
 Lemma pr_search_correct fuel (af : fw) e ps1 ps2 l id k result acc_b ref_b ext ps3 os :
